@@ -1,5 +1,6 @@
 //! L1/L2 checks driven in-process. `vchecks <subcommand> --seed N --cases N --out DIR ...`
 
+mod c03s;
 mod c04;
 mod c05;
 mod c06;
@@ -24,6 +25,7 @@ fn main() {
     vmodel::util::install_quiet_panic_hook();
     let ok = match args.sub.as_str() {
         "c04" | "c03a" => c04::run(&args.sub, &args),
+        "c03s" => c03s::run(&args),
         "c05" => c05::run(&args),
         "c06" => c06::run(&args),
         "c07" => c07::run(&args),
